@@ -143,6 +143,10 @@ fn main() {
                     println!("replay {file}: the process survives the case list of generator thread {only}");
                     std::process::exit(0);
                 }
+                Ok(s) if { use std::os::unix::process::ExitStatusExt; s.signal() == Some(9) } => {
+                    eprintln!("INFRASTRUCTURE: the child was killed (SIGKILL); not a verdict");
+                    std::process::exit(2);
+                }
                 other => {
                     println!("replay {file}: the case list of generator thread {only} ends the process with {other:?}");
                     println!("VIOLATION property={id} replay={file}");
@@ -335,20 +339,29 @@ fn write_evidence(path: &Path, ctx: &Ctx, st: &Stats, rule: &str, assumptions: &
 /// Run `--replay file` in a child process with glibc's heap consistency checks switched on (so that heap corruption is
 /// reported when the damaged block is freed instead of going unnoticed); Some(description) if the child does not exit 0.
 fn replay_in_child(id: &str, build: &str, root: &Path, f: &Path) -> Option<String> {
+    use std::os::unix::process::ExitStatusExt;
     let exe = std::env::current_exe().ok()?;
     let mut cmd = std::process::Command::new(&exe);
     cmd.args([id, "--build", build, "--root", &root.display().to_string(), "--replay", &f.display().to_string()])
         .env("VCHECK_CHILD", "1")
         .stdout(std::process::Stdio::null())
-        .stderr(std::process::Stdio::null());
+        .stderr(std::process::Stdio::piped());
     let dbg = "/lib/x86_64-linux-gnu/libc_malloc_debug.so.0";
     if Path::new(dbg).exists() {
         cmd.env("LD_PRELOAD", dbg).env("GLIBC_TUNABLES", "glibc.malloc.check=3").env("MALLOC_PERTURB_", "165");
     }
-    match cmd.status() {
-        Ok(s) if !matches!(s.code(), Some(0)) => Some(format!("{s:?}")),
-        _ => None,
+    let out = cmd.output().ok()?;
+    let s = out.status;
+    if matches!(s.code(), Some(0)) {
+        return None;
     }
+    // resource exhaustion is not a finding: killed from outside / by the OOM killer, or an allocation that failed
+    let err = String::from_utf8_lossy(&out.stderr);
+    if s.signal() == Some(9) || err.contains("memory allocation of") || err.contains("out of memory") {
+        eprintln!("[{id}] a replay child ran out of memory or was killed ({s:?}); not counted");
+        return None;
+    }
+    Some(format!("{s:?}"))
 }
 
 fn supervise(args: &[String], id: &str, root: &Path, build: &str) -> i32 {
@@ -369,6 +382,14 @@ fn supervise(args: &[String], id: &str, root: &Path, build: &str) -> i32 {
         if (0..=2).contains(&c) {
             let _ = std::fs::remove_dir_all(&jdir);
             return c;
+        }
+    }
+    {
+        use std::os::unix::process::ExitStatusExt;
+        if status.as_ref().ok().and_then(|s| s.signal()) == Some(9) {
+            eprintln!("INFRASTRUCTURE: [{id}:{build}] the supervised child was killed (SIGKILL: out of memory or stopped from outside); not a violation");
+            let _ = std::fs::remove_dir_all(&jdir);
+            return 2;
         }
     }
     eprintln!("[{id}:{build}] child terminated abnormally ({status:?}); re-executing the journalled cases");
